@@ -155,7 +155,17 @@ def run(ctx):
         adt = F.adts.get((imp.get("self_head") or {}).get("adt"))
         if not adt:
             continue
-        if any("::JoinHandle<" in f["ty"] and "std::thread" in f["ty"] for v in adt["variants"] for f in v["fields"]):
+        def _holds_join(ty, depth=2):
+            if "::JoinHandle<" in ty and "std::thread" in ty:
+                return True
+            if depth > 0:
+                for d_, a_ in F.adts.items():
+                    if a_["crate"] == BG and (ty == d_ or ty.startswith(d_ + "<") or ("<" + d_ + ">") in ty or ("<" + d_ + "<") in ty):
+                        if any(_holds_join(f_["ty"], depth - 1) for v_ in a_["variants"] for f_ in v_["fields"]):
+                            return True
+            return False
+        # (the handle may be wrapped in a private state type: `enum WriterThread { Joinable(JoinHandle<()>), Detached }`)
+        if any(_holds_join(f["ty"]) for v in adt["variants"] for f in v["fields"]):
             for it in imp["items"]:
                 if it["name"] == "drop":
                     b = F.bodies.get((BG, it.get("uid") or it["def"]))
@@ -163,7 +173,16 @@ def run(ctx):
                         jh_drops.append(b)
     ctx.floor("R05.1", "destructors of join-handle types (ADT holding a thread::JoinHandle)", len(jh_drops), 1)
     for b in jh_drops:
-        stores = [c for c in b.calls() if c.is_("core::sync::atomic::Atomic::<bool>::store", "core::sync::atomic::AtomicBool::store")]
+        is_flag_store = lambda c: c.is_("core::sync::atomic::Atomic::<bool>::store", "core::sync::atomic::AtomicBool::store")
+        stores = [c for c in b.calls() if is_flag_store(c)]
+        # (raising the flag may be a one-line private method of a flag newtype: it must store `true` on every path)
+        raised_by_helper = set()
+        for c in b.calls():
+            for hb in local_callee_bodies(F, c):
+                hs = [x for x in hb.calls() if is_flag_store(x)] if hb.crate == BG and hb.kind != "Closure" else []
+                if hs and all(len(x.args) >= 2 and (op_const(x.args[1]) or {}).get("bool") is True for x in hs) and hb.must_pass([x.bb for x in hs]):
+                    stores.append(c)
+                    raised_by_helper.add(c.bb)
         joins = [c for c in b.calls() if c.is_in("std::thread", "JoinHandle::join")]
         key = fnkey(b)
         if not stores or not joins:
@@ -172,7 +191,7 @@ def run(ctx):
         dom = b.dominators()
         for j in joins:
             okst = [s for s in stores if dominates(b, s.bb, j.bb, dom) and s.bb != j.bb]
-            true_store = [s for s in okst if len(s.args) >= 2 and (op_const(s.args[1]) or {}).get("bool") is True]
+            true_store = [s for s in okst if s.bb in raised_by_helper or (len(s.args) >= 2 and (op_const(s.args[1]) or {}).get("bool") is True)]
             ctx.check(bool(true_store), "R05.1", key + "#store(true)-dominates-join", loc(b, j.bb),
                       "JoinHandle::join is not dominated by a store(true) to the shutdown flag: the writer would never be told to stop",
                       "store(true) bb%s dominates join bb%d" % ([s.bb for s in true_store], j.bb))
